@@ -16,13 +16,16 @@ CHECKS = {
     "C01": ("full",
             "Lean theorems (C01.lt_iff_lex, le_iff_lt_or_eq, gt/ge_iff_swap, trichotomy/irrefl/asymm/trans, weighted_order_neg/pos, lt_weighted_iff (the order on the "
             "RAW values: first differing objective decides, a negative weight makes the smaller value better), gt_single_neg, values_roundtrip, dominates_iff(+pointwise), "
-            "dominates_imp_gt, valid_history, cvalid_history and cdel_clears for constrained fitnesses, constrained_table/both/neither) hold for every linearly ordered "
+            "dominates_imp_gt, compare_order_invariant (every operator and dominates see only the ORDER of the weighted values: invariant under any strictly increasing "
+            "re-labelling), valid_history, cvalid_history and cdel_clears for constrained fitnesses, constrained_table/both/neither) hold for every linearly ordered "
             "field, every tuple length and every index list; model Core/Fitness.lean is diffed against deap.base on an exhaustive small domain, random dyadic inputs, "
-            "near-ties a few ulps apart, constrained histories (assign / set violation record incl. numeric records / delete in every order), and the statement itself "
+            "near-ties a few ulps apart, integers beyond 2**53 and exact rationals (integer weights), finite weights x finite values whose products saturate at +-inf "
+            "(ties at infinity; the model sees a strictly increasing image), values handed over in tuples/lists/deques/float64, float32 and int64 arrays through the "
+            "constructor, the keyword and the property, constrained histories (assign / set violation record incl. numeric records / delete in every order), and the statement itself "
             "is evaluated as an oracle on the real objects. Clone equality (clone_eq, cclone_eq) and the no-aliasing of assigned containers hold by construction in the "
             "model (a value has no identity) and rest on the oracle: clones compared on the real objects, assigned lists mutated afterwards.",
             TB + "IEEE products of the test inputs are exact (weights +-1 for the near-tie stream, small dyadics otherwise; model uses Rat); CPython tuple comparison/slicing "
-            "modelled in Core/Py.lean; the read-back clause is demanded for weights +-1 only, as the statement says.",
+            "modelled in Core/Py.lean; the read-back clause is demanded for weights +-1 only, as the statement says, and for values that are doubles.",
             "Lean 4 proof over a hand-written model + differential correspondence + oracle"),
     "C02": ("full",
             "Lean theorems (C02.varAnd_/varOr_ count, parents_unchanged, inputs_unchanged, fresh, not_input, distinct, touched_invalid, untouched_is_clone/"
@@ -238,15 +241,18 @@ CHECKS = {
             "the reals, correspondence uses relative tolerance 1e-9 (inverse checks scaled by cond).",
             "Lean 4 proof over a hand-written model (Mathlib matrices via a list<->Matrix bridge) + differential correspondence with tolerance + oracle"),
     "C16": ("partial",
-            "Lean theorems C16.create_succeeds, fresh_attrs, clone_equal, clone_disjoint, clone_shares_no_mutable, write_independent, clone_chain, "
-            "pickle_equal, pickle_disjoint, partial_call, decorate_keeps_frozen hold for every class table (classes mention earlier classes only, dict_inst "
+            "Lean theorems C16.create_succeeds, fresh_attrs, clone_equal, create_then_clone, clone_disjoint, clone_shares_no_mutable, write_independent, "
+            "clone_chain, pickle_equal, pickle_disjoint, meta_create_equivalent / meta_create_keeps_old / meta_create_old_instances / meta_create_rebinds "
+            "(creating a class again under the same name yields an equivalent class, the old class object and its instances keep working, the module name "
+            "is rebound), class_roundtrip, partial_call, decorate_keeps_frozen hold for every class table (classes mention earlier classes only, dict_inst "
             "names unique), every closed heap and every finite object graph meeting the hooks' stated side conditions, at every depth and chain length; "
-            "Core/Heap.lean (deepcopy with memo + the five DEAP hooks as coded, reduce-tuple pickling, init_type, functools.partial) is diffed against the real "
-            "creator/clone/pickle on concrete object graphs with an identity-aware dump for all bases, attribute graphs with aliasing, protocols 0..5, same and "
-            "fresh interpreter; the statement (equal abstraction, equivalent class, no shared mutable object, mutation in both directions) is an oracle on the real objects.",
+            "Core/Heap.lean (deepcopy with memo + the five DEAP hooks as coded, incl. numpy.ndarray.__deepcopy__ for object-dtype arrays after fix F29, "
+            "reduce-tuple pickling, init_type, functools.partial) is diffed against the real creator/clone/pickle on concrete object graphs with an "
+            "identity-aware dump for all bases, attribute graphs with aliasing, protocols 0..5, same and fresh interpreter; the statement (equal "
+            "abstraction, equivalent class, no shared mutable object, mutation in both directions) is an oracle on the real objects.",
             TB + "partial: that CPython's copy/pickle/metaclass machinery dispatches to the modelled hooks (e.g. __reduce_ex__ precedence, F11; __slots__/__getstate__, F15) "
-            "is runtime behaviour only the correspondence sees; acyclic graphs; pickle model is a tree (internal sharing checked by oracle only); dtype of an empty "
-            "ndarray is not content.",
+            "is runtime behaviour only the correspondence sees; so are the pickle protocols, the fresh interpreter and the picklability of toolbox aliases "
+            "(no theorem speaks of them); acyclic graphs; pickle model is a tree (internal sharing checked by oracle only); dtype of an empty ndarray is not content.",
             "Lean 4 proof over a hand-written heap model + differential correspondence (in-process and fresh interpreter) + oracle with mutation test"),
     "C17": ("partial",
             "Lean theorems C17.deterministic(_on), run_add, resume(_at), resumeFrom_eq, resume_many(_from), resume_needs_complete_state, schedule_independent/"
